@@ -9,7 +9,8 @@ use petgraph::adj::List;
 use petgraph::algo::articulation_points::articulation_points;
 use petgraph::algo::dominators::simple_fast;
 use petgraph::algo::{
-    all_simple_paths, astar, bellman_ford, connected_components, dijkstra, find_negative_cycle, floyd_warshall,
+    all_simple_paths, astar, bellman_ford, connected_components, dijkstra, dsatur_coloring, find_negative_cycle, floyd_warshall,
+    greedy_feedback_arc_set, is_bipartite_undirected,
     ford_fulkerson, greedy_matching, has_path_connecting, is_cyclic_directed, is_cyclic_undirected, is_isomorphic,
     k_shortest_path, kosaraju_scc, maximal_cliques, maximum_matching, min_spanning_tree, min_spanning_tree_prim, page_rank,
     spfa, tarjan_scc, toposort, DfsSpace,
@@ -214,6 +215,21 @@ where
         }
         "valid".to_string()
     });
+    if !directed && v.a.is_simple() && !v.a.edges.iter().any(|e| e.0 == e.1) {
+        // a colouring is not unique (and DSatur is not optimal): proper on every encoding is what is comparable
+        ans.put("dsatur_coloring-valid", enc, || {
+            let (col, k) = dsatur_coloring(g);
+            for &x in &v.live {
+                let c = col.get(&v.id(x)).copied();
+                assert!(c.map_or(false, |c| c < k), "dsatur_coloring: node {} has colour {c:?} with {k} colours reported", back[x]);
+            }
+            for &(x, y, _) in &v.a.edges {
+                assert!(col[&v.id(x)] != col[&v.id(y)], "dsatur_coloring: adjacent nodes {} and {} share a colour", back[x], back[y]);
+            }
+            "valid".to_string()
+        });
+        ans.put("is_bipartite_undirected", enc, || format!("{}", is_bipartite_undirected(g, v.id(s))));
+    }
     ans.put("page_rank", enc, || {
         let r = page_rank(g, 0.85f64, 12);
         let by_label: BTreeMap<usize, i64> = v.live.iter().map(|&x| (back[x], (r.get(g.to_index(v.id(x))).copied().unwrap_or(f64::NAN) * 1e6).round() as i64)).collect();
@@ -574,6 +590,25 @@ pub fn run(c: &Case) -> Outcome {
     }
     if a0.directed {
         per_type!(Directed);
+        {
+            // a feedback arc set is not unique: removing it must leave an acyclic graph on every encoding
+            let g0: Graph<usize, i32, Directed, u32> = to_graph(&a0, |w| w);
+            let (g2, _) = to_stable_holes::<i32, Directed, u32>(&a0, salt, |w| w);
+            ans.put("greedy_feedback_arc_set-valid", "Graph<u32>", || {
+                let fas: std::collections::HashSet<_> = greedy_feedback_arc_set(&g0).map(|e| e.id()).collect();
+                let mut h = g0.clone();
+                h.retain_edges(|_, e| !fas.contains(&e));
+                assert!(!is_cyclic_directed(&h), "removing the feedback arc set leaves a cycle");
+                "valid".to_string()
+            });
+            ans.put("greedy_feedback_arc_set-valid", "StableGraph holes", || {
+                let fas: std::collections::HashSet<_> = greedy_feedback_arc_set(&g2).map(|e| e.id()).collect();
+                let mut h = g2.clone();
+                h.retain_edges(|_, e| !fas.contains(&e));
+                assert!(!is_cyclic_directed(&h), "removing the feedback arc set leaves a cycle");
+                "valid".to_string()
+            });
+        }
         if is_simple {
             let (g4, m4) = to_matrix_holes::<i32, Directed>(&a0, salt, |w| w);
             ans.back = ident.clone();
@@ -654,9 +689,9 @@ pub fn run(c: &Case) -> Outcome {
 pub fn property() -> Property {
     Property {
         id: "C07",
-        rule: "one random abstract multigraph (1..=9 nodes quick, <=28 thorough; weights 0..9, -4..9 or 1..3) is stored as Graph<u32>, Graph<u8> relabeled with reversed insertion order, StableGraph with node and edge vacancies (two variants), and - when simple - GraphMap, MatrixGraph with reused ids, Csr (two variants), adj::List (directed); about 30 algorithms and walkers (dijkstra, astar, k_shortest_path, spfa, bellman_ford, find_negative_cycle, floyd_warshall, SCCs, has_path_connecting, is_cyclic_*, connected_components, toposort, Topo, Dfs/Bfs/DfsPostOrder, dominators, articulation points, matchings, ford_fulkerson, MST, maximal_cliques, all_simple_paths, page_rank, is_isomorphic, graph6) run on every encoding that satisfies their bounds; answers are translated back to labels and must be identical where unique and equally valid/optimal otherwise (spfa / bellman_ford predecessor tables must be tight shortest-path trees, the astar path must cost what is reported, a label-scripted pruning depth_first_search must give a well-nested event stream and the order-independent reached set, toposort orders are validated); a panic on one encoding while another succeeds is a violation; non-trivial = >= 3 nodes and >= 2 edges (every case has encodings with node_bound > node_count and edge_bound > edge_count); distinct by case fingerprint",
+        rule: "one random abstract multigraph (1..=9 nodes quick, <=28 thorough; weights 0..9, -4..9 or 1..3) is stored as Graph<u32>, Graph<u8> relabeled with reversed insertion order, StableGraph with node and edge vacancies (two variants), and - when simple - GraphMap, MatrixGraph with reused ids, Csr (two variants), adj::List (directed); about 35 algorithms and walkers (dijkstra, dsatur_coloring, greedy_feedback_arc_set, is_bipartite_undirected, min_spanning_tree_prim, astar, k_shortest_path, spfa, bellman_ford, find_negative_cycle, floyd_warshall, SCCs, has_path_connecting, is_cyclic_*, connected_components, toposort, Topo, Dfs/Bfs/DfsPostOrder, dominators, articulation points, matchings, ford_fulkerson, MST, maximal_cliques, all_simple_paths, page_rank, is_isomorphic, graph6) run on every encoding that satisfies their bounds; answers are translated back to labels and must be identical where unique and equally valid/optimal otherwise (spfa / bellman_ford predecessor tables must be tight shortest-path trees, the astar path must cost what is reported, a label-scripted pruning depth_first_search must give a well-nested event stream and the order-independent reached set, toposort orders are validated); a panic on one encoding while another succeeds is a violation; non-trivial = >= 3 nodes and >= 2 edges (every case has encodings with node_bound > node_count and edge_bound > edge_count); distinct by case fingerprint",
         assumptions: &["correctness of the answers themselves is decided by C08-C16 and C20; this check only compares encodings"],
         both_profiles: false,
-        subs: vec![sub("encodings/differential", 240_000, 150_000, strategy, run)],
+        subs: vec![sub("encodings/differential", 240_000, 1_500_000, strategy, run)],
     }
 }
